@@ -5,7 +5,7 @@ cd /repo || exit 2
 if ! git apply --check "$p" 2>/dev/null; then echo "PATCH DOES NOT APPLY: $p"; git apply --check "$p"; exit 3; fi
 git apply "$p"
 for id in "$@"; do
-  (cd /verif && ./check $id 2>&1 | grep -E "^(VIOLATION|OK|KNOWN-FINDING)" | head -5)
+  (cd /verif && VERIF_EVIDENCE_DIR=/tmp/verif-seed-evidence ./check $id 2>&1 | grep -E "^(VIOLATION|OK|KNOWN-FINDING)" | head -5)
 done
 git -C /repo checkout -- . ; git -C /repo clean -fdq
 git -C /repo status --short | head -3
